@@ -45,6 +45,7 @@ func init() {
 				{Name: "att-recording", Bin: "race", Batches: n, Parallel: 4, TimeoutS: 900},
 				{Name: "parser-games", Bin: "plain", Batches: 1, TimeoutS: 900},
 				{Name: "fd-exhaustion", Bin: "plain", Batches: 1, TimeoutS: 600},
+				{Name: "stalled-reader", Bin: "plain", Batches: 1, TimeoutS: 600},
 			}
 		},
 		Assumptions: []string{
@@ -54,12 +55,13 @@ func init() {
 			"memory: this sandbox has no memory limit, so an allocation sized by a hostile length field would not kill the process here; a 1 ms heap sampler stands in for the OOM killer: live-heap growth of more than 1 GiB over the baseline while hostile connections send a few KiB each is a violation, recorded by the child, which then exits at once (the unchanged servers allocate by bytes received only)",
 		},
 	}, map[string]Worker{
-		"jt808-default": func(c *core.Collector, x *Ctx) { c10JT808(c, x, false) },
-		"jt808-parsing": func(c *core.Collector, x *Ctx) { c10JT808(c, x, true) },
-		"att-default":   func(c *core.Collector, x *Ctx) { c10Att(c, x, true) },
-		"att-recording": func(c *core.Collector, x *Ctx) { c10Att(c, x, false) },
-		"parser-games":  c10Games,
-		"fd-exhaustion": c10FD,
+		"stalled-reader": c10Stalled,
+		"jt808-default":  func(c *core.Collector, x *Ctx) { c10JT808(c, x, false) },
+		"jt808-parsing":  func(c *core.Collector, x *Ctx) { c10JT808(c, x, true) },
+		"att-default":    func(c *core.Collector, x *Ctx) { c10Att(c, x, true) },
+		"att-recording":  func(c *core.Collector, x *Ctx) { c10Att(c, x, false) },
+		"parser-games":   c10Games,
+		"fd-exhaustion":  c10FD,
 	})
 }
 
@@ -1306,4 +1308,143 @@ func c10FD(c *core.Collector, x *Ctx) {
 	}
 	c.Floor("rounds_that_reached_the_descriptor_limit", 2)
 	c.Floor("rounds_after_which_both_servers_served_new_clients", 4)
+}
+
+// ---- a client that stops reading ------------------------------------------------------------------------------
+//
+// A connection lifecycle like any other: the client joins, keeps sending valid heartbeats and never reads a byte again.
+// The replies fill the socket buffers until a write of the server blocks. That alone concerns only this client — but the
+// platform goes on addressing commands to every terminal it knows, this one included. While the client stays connected and
+// silent, established sessions must keep being served and NEW terminals must be admitted and answered (within a bound
+// generous enough for a server that gives a stuck write some seconds before it gives the connection up).
+func c10Stalled(c *core.Collector, x *Ctx) {
+	c.Rule = "a hostile client joins, floods valid heartbeats and never reads; once a socket write of the server is seen parked (goroutine dump) the platform addresses 6 commands to that terminal, as it does to any terminal it knows; " +
+		"oracle: while the client stays connected and silent for 40 s, two canary sessions keep getting their replies and every fresh terminal is answered within 30 s; afterwards the client closes and every command call returns. evaluation = one probe / command call"
+	srv, err := svc.Start(nil)
+	if err != nil {
+		c.Inconclusive()
+		return
+	}
+	var stop atomic.Bool
+	var rounds atomic.Int64
+	var wg sync.WaitGroup
+	for i := 0; i < 2; i++ {
+		wg.Add(1)
+		go func(i int) {
+			defer wg.Done()
+			c10Canary(c, srv.Addr, 700+i, &stop, &rounds)
+		}(i)
+	}
+	defer func() {
+		stop.Store(true)
+		wg.Wait()
+	}()
+	for round := 0; round < c.N(1, 3); round++ {
+		t, err := svc.Dial(srv.Addr, round%2 == 1, fmt.Sprintf("%d", 9400000+round))
+		if err != nil {
+			c.Inconclusive()
+			return
+		}
+		t.Close() // lends its frame builder only
+		raw, err := net.DialTimeout("tcp", srv.Addr, 5*time.Second)
+		if err != nil {
+			c.Inconclusive()
+			return
+		}
+		raw.Write(t.Frame(0x0002, 1, nil))
+		raw.SetReadDeadline(time.Now().Add(20 * time.Second))
+		if _, err := raw.Read(make([]byte, 15)); err != nil {
+			raw.Close()
+			c.Inconclusive()
+			return
+		}
+		var batch []byte
+		for k := 0; k < 1000; k++ {
+			batch = append(batch, t.Frame(0x0002, uint16(k+2), nil)...)
+		}
+		floodStop := make(chan struct{})
+		floodDone := make(chan struct{})
+		go func() {
+			defer close(floodDone)
+			pending := batch
+			for {
+				select {
+				case <-floodStop:
+					return
+				default:
+				}
+				raw.SetWriteDeadline(time.Now().Add(200 * time.Millisecond))
+				n, err := raw.Write(pending)
+				pending = pending[n:]
+				if len(pending) == 0 {
+					pending = batch
+				}
+				if err != nil {
+					if ne, ok := err.(net.Error); !ok || !ne.Timeout() {
+						return
+					}
+				}
+			}
+		}()
+		// wait (bounded) until a writer of the server is parked in its socket write
+		parked := false
+		for i := 0; i < 120 && !parked; i++ {
+			time.Sleep(250 * time.Millisecond)
+			parked = goroutineInIOWaitWrite()
+		}
+		if !parked {
+			close(floodStop)
+			<-floodDone
+			raw.Close()
+			c.Inconclusive() // the situation could not be produced on this machine
+			return
+		}
+		c.Count("servers_writes_parked_by_a_client_that_does_not_read", 1)
+		// the platform addresses commands to the silent terminal
+		var cwg sync.WaitGroup
+		results := make([]string, 6)
+		for k := 0; k < 6; k++ {
+			cwg.Add(1)
+			go func(k int) {
+				defer cwg.Done()
+				res := sendCmd(srv.G, t.Phone, consts.P8104QueryTerminalParams, nil, 200*time.Millisecond, 75*time.Second)
+				results[k] = res.kind
+			}(k)
+		}
+		time.Sleep(500 * time.Millisecond)
+		// fresh terminals while the client stays connected and silent
+		held := time.Now()
+		for p := 0; p < 3; p++ {
+			r0 := rounds.Load()
+			c.Eval()
+			ok, to := c10Probe(srv.Addr, 880000+round*10+p)
+			served := rounds.Load() - r0
+			switch {
+			case ok:
+				c.Count("fresh_terminals_served_while_a_client_does_not_read", 1)
+			case to && served >= 5:
+				c.Violate("stall|a client that stops reading, with platform commands addressed to it, keeps new terminals from being served",
+					fmt.Sprintf("a fresh terminal got no answer for 30 s while the two established canary sessions were served %d rounds in that time; the silent client had been connected for %v; service goroutines: %v", served, time.Since(held).Round(time.Second), goroutineDump()), nil)
+				p = 3
+			case to:
+				c.Inconclusive()
+				p = 3
+			default:
+				c.Violate("probe|a fresh connection was not served correctly after hostile connections", "while a client that does not read was connected", nil)
+			}
+		}
+		close(floodStop)
+		<-floodDone
+		raw.Close()
+		cwg.Wait()
+		for _, k := range results {
+			c.Eval()
+			if k == "stranded" {
+				c.Violate("stranded|a platform command to a client that stopped reading never returned, not even after it disconnected", fmt.Sprintf("service goroutines: %v", goroutineDump()), nil)
+				break
+			}
+		}
+		c.NonTrivial(core.HashString(fmt.Sprintf("stalled/%d/%d", x.Batch, round)))
+	}
+	c.Floor("servers_writes_parked_by_a_client_that_does_not_read", 1)
 }
